@@ -213,7 +213,12 @@ pub fn scaled_cases(thorough: bool) -> (Vec<Case>, Value) {
     for l in [L4::Encrypt, L4::Both] {
         let p = Program::new(vec![Op::Add(0, 3 * CHUNK)], Entropy::Pattern);
         cases.push(Case { p: p.clone(), cfg: Cfg { layers: l, level: 5, recipients: 16 }, keys: vec![15], family: "R" });
-        cases.push(Case { p, cfg: Cfg { layers: l, level: 5, recipients: 16 }, keys: vec![0], family: "R" });
+        cases.push(Case { p: p.clone(), cfg: Cfg { layers: l, level: 5, recipients: 16 }, keys: vec![0], family: "R" });
+        // recipient counts around powers of two up to 200 (a header of about 10 KB)
+        for n in [17usize, 21, 32, 33, 64, 65, 128, 200] {
+            cases.push(Case { p: p.clone(), cfg: Cfg { layers: l, level: 5, recipients: n }, keys: vec![n - 1], family: "R" });
+            cases.push(Case { p: p.clone(), cfg: Cfg { layers: l, level: 5, recipients: n }, keys: vec![n / 2], family: "R" });
+        }
     }
     let bounds = json!({
         "RB": "the 9 structurally rich base programs shared with the other checks x 3 entropies x levels {1,5}",
@@ -225,7 +230,7 @@ pub fn scaled_cases(thorough: bool) -> (Vec<Case>, Value) {
         "B": format!("layers none/encrypt: all valid programs with <= {mf} files, <= {mo} ops, <= {ma} appends, sizes {:?}, closed in creation and reverse order; layers compress/both: same with <= {cmo} ops, <= {cma} appends", sizes),
         "B3": "all valid programs with up to 3 (quick) / 4 (thorough) appends of sizes {1, chunk+1, block+1}: <= 8 ops for layers none/encrypt, <= 6/7 ops and 3 appends for compress/both; thorough adds all programs with <= 4 files, <= 8 ops, <= 2 appends of sizes {1, chunk+1}",
         "N": "names {empty, 'a', unicode with '/', 65536 bytes} in every position of a 3-file interleaved program",
-        "R": "1..3 recipients, each reading alone and after two foreign candidate keys; 16 recipients read by the first and the last",
+        "R": "1..3 recipients, each reading alone and after two foreign candidate keys; 16 recipients read by the first and the last; 17, 21, 32, 33, 64, 65, 128 and 200 recipients read by the last and the middle one",
     });
     (cases, bounds)
 }
